@@ -24,6 +24,7 @@ import (
 )
 
 type osOutcome struct {
+	Excl bool // opened with O_EXCL
 	Call    string // os.Stat, os.Rename, ...
 	Role    string // target | destination | member | other
 	Outcome string // ok | file | dir | ENOENT | ...
@@ -40,6 +41,7 @@ type fsRun struct {
 	Leak     bool
 	LeakText string
 	Mutated  []string // destructive effects that succeeded, in order
+	Served   bool     // the body was handed to http.ServeContent
 }
 
 type fsExplorer struct {
@@ -242,11 +244,28 @@ func (fx *fsExplorer) model(in *Interp, site ssa.CallInstruction, name string, a
 				}
 			}
 		}
-		o := outcome(name, keyOf(args[0]), role)
+		excl := false
+		if len(args) >= 2 && tr != "" {
+			if fl, ok := in.concretise(args[1]); ok && fl&int64(os.O_EXCL) != 0 {
+				excl = true
+			}
+		}
+		var o string
+		if excl {
+			// O_EXCL: the open may also fail because the file is there
+			set := append(append([]string{}, errnoSets[name]...), "EEXIST")
+			fx.nCalls[name]++
+			k := fmt.Sprintf("%s#%d(%s)excl", name, fx.nCalls[name], keyOf(args[0]))
+			o = set[in.chooseLabeled(k, set)]
+			fx.os = append(fx.os, osOutcome{Call: name, Role: role, Outcome: o, Pos: pos})
+		} else {
+			o = outcome(name, keyOf(args[0]), role)
+		}
 		if tr == "" && name == "os.Create" {
 			tr = "trunc"
 		}
 		fx.os[len(fx.os)-1].Trunc = tr
+		fx.os[len(fx.os)-1].Excl = excl
 		in.effect(name, site.Pos(), args[0], kStr(o))
 		if o == "ok" {
 			if name != "os.Open" {
@@ -492,6 +511,7 @@ func exploreFileServer(c *Ctx, r *RuleResult) []*fsRun {
 						run.Leak, run.LeakText = true, "header "+keyOf(e.Args[0])+": "+keyOf(e.Args[1])
 					}
 				case "ServeContent":
+					run.Served = true
 					if hostPath(e.Args[0]) {
 						run.Leak, run.LeakText = true, "ServeContent name "+keyOf(e.Args[0])
 					}
@@ -1039,6 +1059,9 @@ func (run *fsRun) replay() (changes []string, feasible bool, faults int, forced 
 				if kindOf(get(o.Role).cur) == "dir" && o.Outcome == "EISDIR" && o.Trunc != "readonly" {
 					why = "the " + o.Role + " is a collection"
 				}
+				if k := kindOf(get(o.Role).cur); (k == "dir" || k == "file") && o.Outcome == "EEXIST" && o.Excl {
+					why = "the " + o.Role + " already exists and the open is exclusive (O_EXCL)"
+				}
 			case "os.Mkdir":
 				if k := kindOf(get(o.Role).cur); (k == "dir" || k == "file") && o.Outcome == "EEXIST" {
 					why = "the " + o.Role + " already exists"
@@ -1062,6 +1085,12 @@ func (run *fsRun) replay() (changes []string, feasible bool, faults int, forced 
 			}
 			s := get(o.Role)
 			touched[o.Role] = true
+			if o.Excl {
+				switch kindOf(s.cur) {
+				case "file", "dir":
+					feasible = false // EEXIST
+				}
+			}
 			switch s.cur {
 			case "dir", "new-dir", "replaced-by-new-dir":
 				feasible = false // EISDIR
